@@ -1,11 +1,12 @@
 """Thorough-tier cross-check of the extractor's evaluation of memory orders
 against clang's own code generation (DESIGN A7).
 
-The instantiation driver is compiled with `clang++ -O0 -S -emit-llvm`; at -O0
-nothing is inlined, so every call from a repository function to a member of
-std::atomic<...> / std::__atomic_base<...> is visible with its memory_order
-arguments as i32 constants.  For every function present on both sides (joined
-by mangled name) the multiset of (member, orders) must agree.  A disagreement
+The instantiation driver is compiled with `clang++ -O1 -fno-inline -S -emit-llvm`:
+repository functions are not inlined into each other, libstdc++'s always_inline atomic
+members are, and their switch(order) is folded, so every atomic access of a repository
+function is visible either as an atomic instruction with its ordering or as a call to an
+out-of-line std::atomic member with a constant memory_order argument.  For every function
+present on both sides (joined by mangled name) the set of (kind, order) must agree.  A disagreement
 is an EXTRACTOR fault: exit 2, never a violation."""
 import os
 import re
@@ -21,7 +22,7 @@ def ir_atomic_calls(repo, vp=0, extra=()):
     d = tempfile.mkdtemp(prefix="vir_", dir="/tmp")
     try:
         ll = os.path.join(d, "inst.ll")
-        cmd = ["clang++", "-std=c++17", "-O0", "-S", "-emit-llvm", "-w", "-I" + os.path.join(repo, "gmlc"),
+        cmd = ["clang++", "-std=c++17", "-O1", "-fno-inline", "-S", "-emit-llvm", "-w", "-I" + os.path.join(repo, "gmlc"),
                "-DVP=%d" % vp, "-DVERIF_IR"] + list(extra) + [os.path.join(VERIF, "drivers", "inst.cpp"), "-o", ll]
         r = subprocess.run(cmd, stdout=subprocess.PIPE, stderr=subprocess.STDOUT, text=True)
         if r.returncode != 0 or not os.path.exists(ll):
@@ -30,6 +31,8 @@ def ir_atomic_calls(repo, vp=0, extra=()):
         cur = None
         callees = set()
         rx_def = re.compile(r'^define .*? @"?([^"(\s]+)"?\(')
+        rx_ins = re.compile(r"\b(load atomic|store atomic|atomicrmw|cmpxchg)\b")
+        ORD = {"monotonic": 0, "acquire": 2, "release": 3, "acq_rel": 4, "seq_cst": 5}
         rx_call = re.compile(r'(?:call|invoke) .*? @"?(_ZNV?K?St(?:6atomic|13__atomic_base)[^"(\s]*)"?\((.*)\)')
         for line in open(ll):
             if line.startswith("define "):
@@ -41,6 +44,13 @@ def ir_atomic_calls(repo, vp=0, extra=()):
             if line.startswith("}"):
                 cur = None
                 continue
+            if cur:
+                mi = rx_ins.search(line)
+                if mi and "_ZGV" not in line:      # static-local guard variables are not library atomics
+                    kind = {"load atomic": "load", "store atomic": "store", "atomicrmw": "rmw", "cmpxchg": "cas"}[mi.group(1)]
+                    ords = re.findall(r"\b(monotonic|acquire|release|acq_rel|seq_cst)\b", line)
+                    if ords:
+                        funcs[cur].append(("#" + kind, [ORD[ords[0]]]))
             if cur and ("@_ZNSt" in line or "@_ZNKSt" in line or "@_ZNVSt" in line or "@_ZNVKSt" in line):
                 m = rx_call.search(line)
                 if m:
@@ -57,6 +67,9 @@ def ir_atomic_calls(repo, vp=0, extra=()):
         for fn, calls in funcs.items():
             lst = []
             for sym, consts in calls:
+                if sym.startswith("#"):
+                    lst.append((sym[1:], consts[0]))
+                    continue
                 dn = dem.get(sym, sym)
                 m = re.match(r"^(.*?)\((.*)\)( const| volatile| const volatile)?$", dn)
                 if not m:
@@ -64,37 +77,37 @@ def ir_atomic_calls(repo, vp=0, extra=()):
                 qual = m.group(1)
                 params = m.group(2)
                 name = qual.rsplit("::", 1)[-1]
-                if name.startswith("operator ") and not re.match(r"operator[^a-zA-Z]", name):
+                if re.match(r"^operator [A-Za-z_]", name):
                     name = "operator T"
                 if name.startswith("atomic") or name.startswith("__atomic_base") or name.startswith("~"):
                     continue    # constructors / destructors
                 k = params.count("std::memory_order")
                 orders = tuple(consts[-k:]) if k else ()
-                lst.append((name, orders))
-            res[fn] = sorted(lst)
+                lst.append((KIND.get(name, "rmw" if name.startswith(("fetch_", "operator")) else name),
+                            orders[0] if orders else 5))
+            res[fn] = sorted(set(lst))
         return res, None
     finally:
         import shutil
         shutil.rmtree(d, ignore_errors=True)
 
 
+KIND = {"load": "load", "operator T": "load", "store": "store", "operator=": "store", "exchange": "rmw",
+        "compare_exchange_weak": "cas", "compare_exchange_strong": "cas", "test_and_set": "rmw", "clear": "store"}
+
+
 def ast_atomic_calls(f):
-    lst = []
+    lst = set()
     for op in atomic_ops(f):
-        name = op["name"]
-        if name.startswith("operator") and name not in ("operator T",):
-            lst.append((name, ()))
-        elif name == "operator T":
-            lst.append((name, ()))
-        else:
-            orders = tuple(op["st"].get("mo", []))
-            lst.append((name, orders))
+        if op["op"] in ("load", "store", "rmw", "cas"):
+            o = op["order"]
+            lst.add((op["op"], 2 if o == 1 else o))
     return sorted(lst)
 
 
 def cross_check(ctx, rid, repo, vps=(0,)):
-    ctx.rule(rid, "IR cross-check: the (member, memory orders) multiset of every repository function agrees between "
-             "the extractor (AST, evaluated default arguments) and clang's -O0 LLVM IR", floor=30)
+    ctx.rule(rid, "IR cross-check: the set of (operation kind, memory order) of every repository function agrees between "
+             "the extractor (AST, evaluated default arguments, operator forms) and clang's LLVM IR (-O1 -fno-inline)", floor=30)
     n = 0
     for vp in vps:
         ir, err = ir_atomic_calls(repo, vp)
